@@ -42,67 +42,82 @@ func vVersionsReadable(bkt *vBucket, only map[string]bool) bool {
 // version, some through a new handle), then Vacuum with a symbolic cutoff.
 func VerifH_C09_vacuum() {
 	steps := symParam("steps", 3)
+	rounds := symParam("rounds", 1)
+	cache := symParam("cache", 0)
 	bkt := vNewBucket()
-	w := vMustOpen(bkt.client(1), vTableOpts{bf: 2}, 1000)
-	for i := 0; i < steps; i++ {
-		t := int64(2000 + 100*i)
-		var err error
-		switch symChoice("stmt", 6) {
-		case 0:
-			err = vIns(w, t, int64(1), int64(10+i), nil)
-		case 1:
-			err = vIns(w, t, int64(2), int64(20+i), nil)
-		case 2:
-			err = w.Delete(vAt(t), int64(1))
-		case 3:
-			err = w.Delete(vAt(t), int64(2))
-		case 4:
-			err = w.Update(vAt(t), int64(1), map[int]interface{}{1: int64(110 + i)})
-		case 5: // continue through a new handle (new creation time)
-			w = vMustOpen(bkt.client(1), vTableOpts{bf: 2}, t+50)
+	w := vMustOpen(bkt.client(1), vTableOpts{bf: 2, cache: cache}, 1000)
+	for round := 0; round < rounds; round++ {
+		base := int64(2000 + 10000*round)
+		for i := 0; i < steps; i++ {
+			t := base + int64(100*i)
+			var err error
+			switch symChoice("stmt", 6) {
+			case 0:
+				err = vIns(w, t, int64(1), int64(10+i), nil)
+			case 1:
+				err = vIns(w, t, int64(2), int64(20+i), nil)
+			case 2:
+				err = w.Delete(vAt(t), int64(1))
+			case 3:
+				err = w.Delete(vAt(t), int64(2))
+			case 4:
+				err = w.Update(vAt(t), int64(1), map[int]interface{}{1: int64(110 + i)})
+			case 5: // continue through a new handle (new creation time)
+				w = vMustOpen(bkt.client(1), vTableOpts{bf: 2, cache: cache}, t+50)
+			}
+			if err != nil && err != ErrS3DBConstraintPrimaryKey {
+				symAssert(false, "statement-ok")
+			}
+			symAssert(w.Commit(vCtx) == nil, "commit-ok")
 		}
-		if err != nil && err != ErrS3DBConstraintPrimaryKey {
-			symAssert(false, "statement-ok")
+		tables["t"] = w
+		before, err := vScan(w)
+		symAssert(err == nil, "scan-before-ok")
+		cutName := "cutoff"
+		if round > 0 {
+			cutName = "cutoff" + string(rune('0'+round))
 		}
-		symAssert(w.Commit(vCtx) == nil, "commit-ok")
+		cut := symInt64(cutName)
+		symAssume(vTimeOK(cut))
+		err = Vacuum(vCtx, "t", time.Unix(0, cut))
+		symAssert(err == nil, "vacuum-ok")
+		// visible rows unchanged through the vacuuming handle
+		after, err := vScan(w)
+		symAssert(err == nil, "scan-after-ok")
+		symAssert(vRowsEq(before, after), "rows-unchanged-through-vacuuming-handle")
+		// ... and through a connection opened afterwards
+		fresh, err := vFreshRows(bkt)
+		symAssert(err == nil, "fresh-open-after-vacuum-ok")
+		symAssert(vRowsEq(before, fresh), "rows-unchanged-for-new-connection")
+		// no retained version refers to a deleted object
+		symAssert(vRetainedVersionsReadable(bkt), "retained-versions-fully-readable")
+		// repeating the same vacuum changes nothing
+		names1 := bkt.names("")
+		err = Vacuum(vCtx, "t", time.Unix(0, cut))
+		symAssert(err == nil, "second-vacuum-ok")
+		names2 := bkt.names("")
+		symAssert(symDeepEq(names1, names2), "second-vacuum-changes-nothing")
+		if round+1 < rounds {
+			// the vacuuming handle carries on with more statements and
+			// another vacuum (what it cached about the bucket may be stale now)
+			w = tables["t"]
+			continue
+		}
+		// still writable: a fresh key, and every key that is not visible (never
+		// inserted, or deleted and possibly vacuumed away) can be inserted again
+		symAssert(vIns(w, 90000, int64(7), int64(70), nil) == nil, "writable-after-vacuum")
+		added := 1
+		for _, k := range []int64{1, 2} {
+			if vis, _ := vHas(w, k); !vis {
+				symAssert(vIns(w, 90001, k, int64(5), nil) == nil, "vacuumed-key-can-be-inserted-again")
+				added++
+			}
+		}
+		symAssert(w.Commit(vCtx) == nil, "commit-after-vacuum-ok")
+		final, err := vFreshRows(bkt)
+		symAssert(err == nil, "fresh-open-after-write-ok")
+		symAssert(len(final) == len(before)+added, "write-after-vacuum-visible")
 	}
-	tables["t"] = w
-	before, err := vScan(w)
-	symAssert(err == nil, "scan-before-ok")
-	cut := symInt64("cutoff")
-	symAssume(vTimeOK(cut))
-	err = Vacuum(vCtx, "t", time.Unix(0, cut))
-	symAssert(err == nil, "vacuum-ok")
-	// visible rows unchanged through the vacuuming handle
-	after, err := vScan(w)
-	symAssert(err == nil, "scan-after-ok")
-	symAssert(vRowsEq(before, after), "rows-unchanged-through-vacuuming-handle")
-	// ... and through a connection opened afterwards
-	fresh, err := vFreshRows(bkt)
-	symAssert(err == nil, "fresh-open-after-vacuum-ok")
-	symAssert(vRowsEq(before, fresh), "rows-unchanged-for-new-connection")
-	// no retained version refers to a deleted object
-	symAssert(vRetainedVersionsReadable(bkt), "retained-versions-fully-readable")
-	// repeating the same vacuum changes nothing
-	names1 := bkt.names("")
-	err = Vacuum(vCtx, "t", time.Unix(0, cut))
-	symAssert(err == nil, "second-vacuum-ok")
-	names2 := bkt.names("")
-	symAssert(symDeepEq(names1, names2), "second-vacuum-changes-nothing")
-	// still writable: a fresh key, and every key that is not visible (never
-	// inserted, or deleted and possibly vacuumed away) can be inserted again
-	symAssert(vIns(w, 9000, int64(7), int64(70), nil) == nil, "writable-after-vacuum")
-	added := 1
-	for _, k := range []int64{1, 2} {
-		if vis, _ := vHas(w, k); !vis {
-			symAssert(vIns(w, 9001, k, int64(5), nil) == nil, "vacuumed-key-can-be-inserted-again")
-			added++
-		}
-	}
-	symAssert(w.Commit(vCtx) == nil, "commit-after-vacuum-ok")
-	final, err := vFreshRows(bkt)
-	symAssert(err == nil, "fresh-open-after-write-ok")
-	symAssert(len(final) == len(before)+added, "write-after-vacuum-visible")
 	symReach("end")
 }
 
